@@ -81,6 +81,8 @@ def cases(rng, tier):
         out.append(S.scenario_case(spec, 'multi-fault'))
     for _ in range(200 if tier == 'thorough' else 30):
         out.append(S.scenario_case(S.gen_scripted_windows(rng), 'scripted-windows'))
+    for _ in range(300 if tier == 'thorough' else 40):
+        out.append(S.scenario_case(S.gen_request_tail(rng), 'request-tail'))
     out += in_window_cases(rng, 2000 if tier == 'thorough' else 300)
     return out
 
@@ -164,6 +166,12 @@ def direct(rng, tier, focus=()):
             f['max_nsegs'] = S.max_transfer_segments(tr)
         failures.extend(fs)
     failures.extend(single_fault_failures(rng, 600 if big else 25, stats))
+    # the whole request is transferred, the one-frame reply is lost: the retry of a segmented request
+    for _ in range(1500 if big else 150):
+        spec = S.gen_request_tail(rng, 'A')
+        stats['evaluations'] += 1
+        if min(n['retries'] for n in spec['nodes']) >= 1:
+            failures.extend(single_fault_eval(spec))
     # the canonical single-fault witness of C05-K1
     import core, json
     for e in core.load_findings('C05'):
